@@ -55,7 +55,7 @@ func runSolver(s solverSpec, file string, timeoutS int) (string, string, int64) 
 	case "timeout":
 		return "timeout", text, ms
 	}
-	if ctx.Err() != nil {
+	if ctx.Err() != nil || strings.Contains(first, "interrupted by timeout") {
 		return "timeout", text, ms
 	}
 	if err != nil {
